@@ -1,18 +1,35 @@
 #!/bin/bash
-# usage: harness/seeded_eval.sh <seeded-dir> <tier> <check> [<check> ...]
-# applies <seeded-dir>/patch.diff to /repo, runs the demo and the listed checks, undoes the change.
+# usage: [TESTS="tests/a tests/b"] harness/seeded_eval.sh <seeded-dir> <tier> <check> [<check> ...]
+# applies <seeded-dir>/patch.diff to /repo, runs the demo (fresh numba cache), optionally the given repo tests, and the
+# listed checks; always undoes the change.
 set -u
 SD=$(realpath "$1"); TIER=$2; shift 2
 VERIF=$(dirname "$(dirname "$(realpath "$0")")")
 cd "$VERIF"
 if [ -n "$(git -C /repo status --porcelain)" ]; then echo "/repo is not clean"; exit 2; fi
 git -C /repo apply "$SD/patch.diff" || { echo "patch does not apply"; exit 2; }
-trap 'git -C /repo checkout -- . ; git -C "$VERIF" checkout -- lean/PqVerif/Gen 2>/dev/null' EXIT
+trap 'git -C /repo checkout -- . ; rm -f /repo/seed_demo_tmp.py; git -C "$VERIF" checkout -- lean/PqVerif/Gen 2>/dev/null' EXIT
+NC=$(mktemp -d)
 echo "== demo"
-DEMO=$(ls "$SD"/demo.* | head -1)
-(cd /repo && timeout 1800 /venv/bin/python "$DEMO" 2>&1 | grep -v "^WARNING\|^I0000\|^W0000" | tail -5; echo "demo exit ${PIPESTATUS[0]}")
+# the demos re-point the editable-install finder to their own directory unless that directory is /repo: run a copy there
+cp "$(ls "$SD"/demo.* | head -1)" /repo/seed_demo_tmp.py
+(cd /repo && NUMBA_CACHE_DIR=$NC timeout 3600 /venv/bin/python /repo/seed_demo_tmp.py 2>&1 | grep -v "^WARNING\|^I0000\|^W0000" | tail -6; echo "demo exit ${PIPESTATUS[0]}")
+if [ -n "${TESTS:-}" ]; then
+  echo "== repo tests: $TESTS"
+  (cd /repo && NUMBA_CACHE_DIR=$NC timeout 7200 /venv/bin/python -m pytest -q -p no:cacheprovider --timeout=900 $TESTS 2>&1 | tail -3)
+fi
+rm -rf "$NC"
 for c in "$@"; do
   echo "== check $c ($TIER)"
-  timeout 7200 ./check "$c" --tier "$TIER" 2>&1 | grep -v "^WARNING\|^I0000\|^W0000\|cuda\|TF_ENABLE" | cut -c1-300 | tail -8
-  echo "check $c exit ${PIPESTATUS[0]}"
+  timeout 14400 ./check "$c" --tier "$TIER" 2>&1 | grep -v "^WARNING\|^I0000\|^W0000\|cuda\|TF_ENABLE" | cut -c1-300 | tail -8
+  rc=${PIPESTATUS[0]}
+  /venv/bin/python - "$c" <<'PY'
+import json, sys
+try:
+    e = json.load(open(f"evidence/{sys.argv[1]}.json"))["coverage"]
+    print(f"mechanism {sys.argv[1]}: obligations {e.get('discharged')}/{e.get('obligations')} correspondence_mismatches {e.get('correspondence_mismatches')} first {json.dumps(e.get('first_mismatches'))[:400]}")
+except Exception as ex:
+    print("mechanism", sys.argv[1], "unavailable", ex)
+PY
+  echo "check $c exit $rc"
 done
